@@ -3,7 +3,7 @@
 # usage: twin_matrix.sh [twin ids...]   (worktrees /tmp/wtq1..3, /tmp/wtm, /tmp/wtv must exist at /repo HEAD)
 OUT=${OUT:-/tmp/twin_matrix.log}
 : > $OUT
-if [ $# -gt 0 ]; then printf "%s\n" "$@" > /tmp/tm.list; else ls /verif/seeded/${TWDIR:-_twins} | grep -- "-[tu][0-9]" > /tmp/tm.list; fi
+if [ $# -gt 0 ]; then printf "%s\n" "$@" > /tmp/tm.list; else ls /verif/seeded/${TWDIR:-_twins} | grep -- "-[tuv][0-9]" > /tmp/tm.list; fi
 i=0
 for W in /tmp/wtq1 /tmp/wtq2 /tmp/wtq3 /tmp/wtm /tmp/wtv; do
   ( awk -v i=$i 'NR % 5 == i' /tmp/tm.list | while read t; do
